@@ -36,9 +36,9 @@ theorem tractInitCore_prov (t0 t : TractObj) (h : tractInitCore t0 = .ok t) : pr
     exact tractPreprocess_prov _ _ _
 
 theorem tractInit_prov (uid : Nat) (desc : Str) (trs : Option Str) (cfg : CfgArg) (pq : Option Bool)
-    (src od : OptStr) (oi : Int) (t : TractObj)
-    (h : tractInit uid desc trs cfg pq src od oi = .ok t) :
-    prov t = (uid, TRS.trsToDict trs, desc, od, oi, src) := by
+    (src od : OptStr) (oi : Int) (look : Option Str → TRS.TrsDict) (t : TractObj)
+    (h : tractInit uid desc trs cfg pq src od oi look = .ok t) :
+    prov t = (uid, look trs, desc, od, oi, src) := by
   unfold tractInit at h
   split at h
   · cases h
